@@ -12,7 +12,7 @@ Hypothesis Inv_add_ge : forall n g s, Inv s -> Inv (add_ge n g s).
 Hypothesis Inv_add_pe : forall n g s, Inv s -> Inv (add_pe n g s).
 Hypothesis Inv_add_ns : forall n s, Inv s -> Inv (add_ns n s).
 Hypothesis Inv_add_seen : forall n s, Inv s -> Inv (add_seen n s).
-Hypothesis Inv_pushdtd : forall n s, Inv s -> Inv (emit [EvPushDtd n] s).
+Hypothesis Inv_pushdtd : forall n s, s_halt s = false -> Inv s -> Inv (push_dtd c n s).
 Hypothesis Inv_cr : forall k rb b sys pub ev r s,
   (b = rb \/ rb = []) -> create_reader c rs fs k rb b sys pub = (ev, r) -> Inv s -> Inv (emit ev s).
 Hypothesis Inv_ss1 : forall base loc ns ev src s,
@@ -38,16 +38,16 @@ Qed.
 
 Lemma g_dtd_att_ref : forall (rec : rec_att) nd ext cur st n,
   (forall ext cur st ps s, Inv s -> Inv (rec ext cur st ps s)) ->
-  forall s, Inv s -> Inv (dtd_att_ref rec nd ext cur st n s).
+  forall s, s_halt s = false -> Inv s -> Inv (dtd_att_ref rec c nd ext cur st n s).
 Proof.
-  intros rec nd ext cur st n IH s Hs. unfold dtd_att_ref.
+  intros rec nd ext cur st n IH s Hh Hs. unfold dtd_att_ref.
   destruct (lookup n (s_ge s)) as [g|]; [|destruct nd; [apply Inv_halt|]; auto].
   destruct (g_def g); [|apply Inv_halt; auto].
   destruct (negb (push_ok n st)); [apply Inv_halt; auto|].
-  apply IH. apply Inv_pushdtd. exact Hs.
+  apply IH. apply Inv_pushdtd; assumption.
 Qed.
 
-Lemma g_dtd_att : forall d nd ext cur st ps s, Inv s -> Inv (dtd_att d nd ext cur st ps s).
+Lemma g_dtd_att : forall d nd ext cur st ps s, Inv s -> Inv (dtd_att d c nd ext cur st ps s).
 Proof.
   induction d as [|d IHd]; intros nd ext cur st ps s Hs.
   - rewrite dtd_att_O. destruct (s_halt s); [exact Hs|apply Inv_halt; auto].
@@ -55,29 +55,29 @@ Proof.
     + rewrite dtd_att_nil. exact Hs.
     + destruct p as [|n].
       * rewrite dtd_att_txt. apply IHr. exact Hs.
-      * rewrite dtd_att_cons_ref. apply IHr. destruct (s_halt s); [exact Hs|].
-        apply g_dtd_att_ref; [|exact Hs]. intros. apply IHd. assumption.
+      * rewrite dtd_att_cons_ref. apply IHr. destruct (s_halt s) eqn:Hh; [exact Hs|].
+        apply g_dtd_att_ref; [|exact Hh|exact Hs]. intros. apply IHd. assumption.
 Qed.
 
 Lemma g_dtd_item : forall (rec : rec_dtd) (datt : rec_att) ext cur st it,
   (forall ext cur st l s, Inv s -> Inv (rec ext cur st l s)) ->
   (forall ext cur st l s, Inv s -> Inv (datt ext cur st l s)) ->
-  forall s, Inv s -> Inv (dtd_item rec datt c rs fs ext cur st it s).
+  forall s, s_halt s = false -> Inv s -> Inv (dtd_item rec datt c rs fs ext cur st it s).
 Proof.
-  intros rec datt ext cur st it IH IHa s Hs. unfold dtd_item.
+  intros rec datt ext cur st it IH IHa s Hh Hs. unfold dtd_item.
   destruct it as [n def|n def|n|vv].
   - destruct (lookup n (s_ge s)); [exact Hs|apply Inv_add_ge; exact Hs].
   - destruct (lookup n (s_pe s)); [exact Hs|apply Inv_add_pe; exact Hs].
   - destruct (lookup n (s_pe s)) as [p|]; [|exact Hs].
     destruct (p_def p) as [vv|pub sys].
     + destruct (negb (push_ok n st)); [apply Inv_halt; auto|].
-      apply IH. apply Inv_pushdtd. exact Hs.
+      apply IH. apply Inv_pushdtd; assumption.
     + destruct (create_reader c rs fs KPE (p_base p) _ sys pub) as [ev r] eqn:E.
       assert (H1 : Inv (emit ev s)).
       { eapply Inv_cr; [|exact E|exact Hs]. destruct (p_base p); [right; reflexivity|left; reflexivity]. }
       destruct r as [id ct| |f]; [|apply Inv_halt; auto|apply Inv_halt; auto].
       destruct (negb (push_ok n st)); [apply Inv_halt; auto|].
-      assert (H2 : Inv (emit [EvPushDtd n] (emit ev s))) by (apply Inv_pushdtd; exact H1).
+      assert (H2 : Inv (push_dtd c n (emit ev s))) by (apply Inv_pushdtd; [exact Hh|exact H1]).
       destruct ct as [[items|ps|refs]|]; auto.
   - apply IHa. exact Hs.
 Qed.
@@ -88,8 +88,8 @@ Proof.
   - rewrite dtd_items_O. destruct (s_halt s); [exact Hs|apply Inv_halt; auto].
   - revert s Hs. induction l as [|it r IHr]; intros s Hs.
     + rewrite dtd_items_nil. exact Hs.
-    + rewrite dtd_items_cons. apply IHr. destruct (s_halt s); [exact Hs|].
-      apply g_dtd_item; [| |exact Hs].
+    + rewrite dtd_items_cons. apply IHr. destruct (s_halt s) eqn:Hh; [exact Hs|].
+      apply g_dtd_item; [| |exact Hh|exact Hs].
       * intros. apply IHd. assumption.
       * intros. apply g_dtd_att. assumption.
 Qed.
